@@ -99,6 +99,9 @@ func c1failingArrangement(p c1prog, want string, k int, seed uint64, pref []c1ar
 		if cls == "" {
 			cls, found = c1classify(p, base, res, diffs, texts...)
 		}
+		if cls == "" && x.closeInDefRule(p, texts) {
+			cls, byRule, found = c1clsK, true, nil
+		}
 		match := cls == want
 		if within != nil {
 			// any class, also none: the same failure is being shrunk
